@@ -340,8 +340,9 @@ void run_simple_op(Op const &op)
       Sock s; s.kind = 1;
       s.tcp = std::make_unique<SocketTcp>(sym_addr(100 + a0));
       s.fd = last_fd_created();
+      long long fd = s.fd;
       add_sock(a0, std::move(s));
-      return {};
+      return {fd, a0};
     });
     break;
   case 21: // UDP_NEW s
@@ -350,8 +351,9 @@ void run_simple_op(Op const &op)
       Sock s; s.kind = 2;
       s.udp = std::make_unique<SocketUdp>(sym_addr(200 + a0));
       s.fd = last_fd_created();
+      long long fd = s.fd;
       add_sock(a0, std::move(s));
-      return {};
+      return {fd, a0};
     });
     break;
   case 22: // ACC_NEW s
@@ -360,8 +362,9 @@ void run_simple_op(Op const &op)
       Sock s; s.kind = 3;
       s.acc = std::make_unique<Acceptor>(sym_addr(300 + a0));
       s.fd = last_fd_created();
+      long long fd = s.fd;
       add_sock(a0, std::move(s));
-      return {};
+      return {fd, a0};
     });
     break;
   case 23: { // TCP_SEND s size timeout
@@ -428,8 +431,9 @@ void run_simple_op(Op const &op)
       Sock c; c.kind = 1;
       c.tcp = std::make_unique<SocketTcp>(std::move(r->first));
       c.fd = last_fd_created();
+      long long fd = c.fd;
       add_sock(a2, std::move(c));
-      return {1, sym_of(r->second)};
+      return {1, sym_of(r->second), fd, a2};
     });
     break;
   }
@@ -438,7 +442,7 @@ void run_simple_op(Op const &op)
     if(it == socks.end()) bad_case(102);
     api(opc, [&]() -> V {
       destroy_objects(it->second);
-      return {};
+      return {a0};
     });
     break;
   }
@@ -490,16 +494,19 @@ void run_simple_op(Op const &op)
     break;
   case 50: // TODO_NEW id kind value block
     if(!driver) bad_case(130);
+    if(a0 >= 0 && todos.count(a0)) bad_case(122);
     api(opc, [&]() -> V {
-      long long id = a0, blk = a3;
+      static long long anonymous = 0;
+      bool anon = a0 < 0;
+      long long id = anon ? 1000 + anonymous++ : a0, blk = a3;
       auto task = [id, blk]() { long long i = id, b = blk; vos::log(21, {5, i}); run_block(b); };
       std::unique_ptr<ToDo> t;
       if(a1 == 0) t = std::make_unique<ToDo>(*driver, task);
       else if(a1 == 1) t = std::make_unique<ToDo>(*driver, task, TimePoint(std::chrono::nanoseconds(a2 + EPOCH_NS)));
       else t = std::make_unique<ToDo>(*driver, task, Duration(a2));
       todo_ids[t->impl.get()] = id;
-      todos[id] = std::move(t);
-      return {};
+      todos[id] = anon ? nullptr : std::move(t);
+      return {id, a1, a2};
     });
     break;
   case 51: { // TODO_SHIFT id kind value
@@ -509,7 +516,7 @@ void run_simple_op(Op const &op)
     api(opc, [&]() -> V {
       if(a1 == 1) it->second->Shift(TimePoint(std::chrono::nanoseconds(a2 + EPOCH_NS)));
       else it->second->Shift(Duration(a2));
-      return {};
+      return {a0, a1, a2};
     });
     break;
   }
@@ -517,14 +524,14 @@ void run_simple_op(Op const &op)
     auto it = todos.find(a0);
     if(it == todos.end()) bad_case(120);
     if(!it->second) bad_case(121);
-    api(opc, [&]() -> V { it->second->Cancel(); return {}; });
+    api(opc, [&]() -> V { it->second->Cancel(); return {a0}; });
     break;
   }
   case 53: { // TODO_DROP id
     auto it = todos.find(a0);
     if(it == todos.end()) bad_case(120);
     it->second.reset();
-    ret_ok(opc, {});
+    ret_ok(opc, {a0});
     break;
   }
   case 60: { // ASYNC_NEW s h1 h2
@@ -533,7 +540,7 @@ void run_simple_op(Op const &op)
     if(!driver) bad_case(130);
     auto &s = it->second;
     if(!(s.tcpb || s.udpb || s.acc)) bad_case(105);
-    api(opc, [&]() -> V { make_async(a0, s, a1, a2); return {}; });
+    api(opc, [&]() -> V { make_async(a0, s, a1, a2); return {a0}; });
     break;
   }
   case 61: case 62: { // ASYNC_SEND s p size / ASYNC_SENDTO s p size dst
@@ -550,7 +557,7 @@ void run_simple_op(Op const &op)
       if(opc == 61) fu.f = s.tcpa->Send(std::move(b));
       else fu.f = s.udpa->SendTo(std::move(b), sym_addr(a3));
       futs.push_back(std::move(fu));
-      return {f};
+      return {f, a0, a2, opc == 61 ? 0 : a3};
     });
     break;
   }
@@ -567,7 +574,7 @@ void run_simple_op(Op const &op)
       auto &s = socks[a0];
       make_buffered(s, a1, a2);
       make_async(a0, s, a3, a4);
-      return {1};
+      return {1, a0, s.fd};
     });
     break;
   }
@@ -694,6 +701,7 @@ void dump_on_signal(int sig)
 {
   // best effort: keep what was traced before the crash, then die with the same signal
   (void)!write(1, S.trace.data(), S.trace.size());
+  (void)!write(1, "\n", 1);
   signal(sig, SIG_DFL);
   raise(sig);
 }
@@ -705,7 +713,7 @@ void run_isolated(Case const &c)
   pid_t pid = fork();
   if(pid == 0) {
     for(int sig : {SIGSEGV, SIGABRT, SIGALRM, SIGBUS, SIGFPE, SIGPIPE}) signal(sig, dump_on_signal);
-    alarm(20);
+    alarm(6);
     run_case(c);
     _exit(0);
   }
